@@ -55,7 +55,10 @@ MANIFEST = {
                   "follows !log-variables / !all-but.  Tie: exact equality of the model's compile (vm_compute) with the quantities "
                   "(name, kind, description, log status, id order) and the dynamic/steady xtrings of Simultaneous.from_string on "
                   "structured random models rendered with random syntactic alternatives, comments, continuations, loops, "
-                  "conditionals, substitutions, context values.",
+                  "conditionals, substitutions, context values; half of the models are compiled as SESSIONS in one Python "
+                  "process (renderings, then variants sharing the equation text but with reordered declarations, extra names "
+                  "declared first, another context for the identical source text, another substitution body, another kind), so "
+                  "that state leaking from one compilation into the next is seen.",
     "level_note": "partial: the character-level regular expressions, the two PEG grammars (parsimonious), Jinja, white space and "
                   "comments are glue exercised by the correspondence, not modelled; the renderer of the harness and Python's ast "
                   "are trusted for the text <-> tree reading; semantic theorems are over a commutative ring (no rounding); "
@@ -319,6 +322,8 @@ class Gen:
                 ex = ("neg", ex)
             if a[0] in ("ctx",):
                 a = self.num()
+                if a[1] == 0:
+                    a = ("num", 3, 0)
             return ("bin", "Pow", r.choice(["caret", "starstar"]), a, ex)
         return a
 
@@ -775,9 +780,12 @@ OPTXT = {"Add": "+", "Sub": "-", "Mul": "*", "Div": "/"}
 
 
 class Render:
-    def __init__(self, rng, restyle=True, noisy=True, feats=()):
+    def __init__(self, rng, restyle=True, noisy=True, feats=(), stable=False):
         self.r = rng
         self.feats = feats
+        self.stable = stable         # the non-blank text of an equation does not depend on random draws:
+        if stable:                   # two models of a session then share their equations word for word
+            self.restyle = restyle = False
         self.restyle = restyle       # re-draw the style fields (brackets, ^/**, =/:=, spellings, <>/{{}})
         self.noisy = noisy           # comments, continuations, odd white space
 
@@ -847,7 +855,7 @@ class Render:
         if k == "var":
             return ie[1]
         o = {"add": "+", "sub": "-", "mul": "*"}[k]
-        s = self.r.choice(["", " "])
+        s = "" if self.stable else self.r.choice(["", " "])
         return self.iexpr(ie[1]) + s + o + s + self.iexpr(ie[2])
 
     def cond(self, cd):
@@ -867,7 +875,7 @@ class Render:
             jinja = self.r.random() < 0.3
         if jinja:
             return "{{ " + self.iexpr(ie) + " }}"
-        return self.r.choice(["<", "<", "<<"]).replace("<<", "<") + self.iexpr(ie) + ">"
+        return "<" + self.iexpr(ie) + ">"
 
     def shift(self, sh, force_square=False):
         r = self.r
@@ -879,12 +887,12 @@ class Render:
         if force_square:       # name{k} right after ?(c) is not standardised by the preparser (not alarmed: see report)
             b = "square"
         if k == 0:
-            if r.random() < 0.93 or "shifted-shock" in self.feats:
+            if self.stable or r.random() < 0.93 or "shifted-shock" in self.feats:
                 return ""
             txt = r.choice(["0", "+0", "-0"])
         else:
-            txt = str(k) if k < 0 else r.choice(["+" + str(k), str(k)])
-        if self.noisy and r.random() < 0.1:
+            txt = str(k) if k < 0 else ("+" + str(k) if self.stable else r.choice(["+" + str(k), str(k)]))
+        if self.noisy and not self.stable and r.random() < 0.1:
             txt = " " + txt + r.choice(["", " "])
         return ("{" + txt + "}") if b == "curly" else ("[" + txt + "]")
 
@@ -926,7 +934,7 @@ class Render:
             s = e[1] + "(" + self.sp() + self.expr(e[2], True)
             if e[3] is not None:
                 kk = e[3]
-                s += self.sp() + "," + self.sp() + (str(kk) if kk < 0 else r.choice([str(kk), "+" + str(kk)]))
+                s += self.sp() + "," + self.sp() + (str(kk) if (kk < 0 or self.stable) else r.choice([str(kk), "+" + str(kk)]))
             return s + self.sp() + ")"
         if k == "subs":
             return "$" + e[1] + "$"
@@ -1278,18 +1286,232 @@ def run_impl(model, src):
 
 
 def _impl_worker(job):
-    model, src = job
-    return run_impl(model, src)[1]
+    """a job is a session: sources compiled one after the other in this process"""
+    return [run_impl(model, src)[1] for model, src in job]
 
 
-def run_impl_many(jobs):
-    """Simultaneous.from_string for many (model, source) pairs; forked workers (the call costs ~0.3 s)"""
+def run_impl_many(sessions):
+    """Simultaneous.from_string for many sessions (lists of (model, source), compiled in order in one process);
+    forked workers (one call costs ~0.3 s); a worker serves several sessions one after the other"""
     import multiprocessing as mp
-    if len(jobs) < 8:
-        return [_impl_worker(j) for j in jobs]
+    if len(sessions) < 4:
+        return [_impl_worker(j) for j in sessions]
     import irispie  # noqa: imported before the fork
     with mp.get_context("fork").Pool(min(core.NCPU, 16)) as pool:
-        return pool.map(_impl_worker, jobs, chunksize=4)
+        return pool.map(_impl_worker, sessions, chunksize=2)
+
+
+# ------------------------------------------------------------------ sessions of related models
+# The property quantifies over all sources, whatever was compiled before in the same Python session.  A session is a
+# base model followed by variants that share most of their text (equations, <...> expressions, $substitutions$)
+# with it but differ in the declarations (order, extra names => other quantity ids), in the preparser context or in
+# the body of a substitution.
+
+def _sections(nodes):
+    """top-level units: every unit starts by switching the block (keyword item or an !if around a whole section)"""
+    units = []
+    for n in nodes:
+        starts = (n[0] == "item" and n[1][0] == "kw") or (n[0] == "if" and n[2] and n[2][0][0] == "item"
+                                                          and n[2][0][1][0] == "kw")
+        if starts or not units:
+            units.append([n])
+        else:
+            units[-1].append(n)
+    return units
+
+
+def _used_names(e, subs, acc):
+    k = e[0]
+    if k == "name":
+        acc.add(close(e[1]))
+    elif k == "bin":
+        _used_names(e[3], subs, acc); _used_names(e[4], subs, acc)
+    elif k in ("neg", "paren"):
+        _used_names(e[1], subs, acc)
+    elif k == "call":
+        for a in e[2]:
+            _used_names(a, subs, acc)
+    elif k == "pseudo":
+        _used_names(e[2], subs, acc)
+    elif k == "subs":
+        _used_names(subs[e[1]], subs, acc)
+
+
+def _const_ok(e, ctx, subs):
+    """no literal / context constant that is not positive where Python scalars misbehave (see Gen.safe_const)"""
+    k = e[0]
+    if k == "ctx":
+        return ieval(e[1], ctx) >= 0
+    if k == "bin":
+        ok = _const_ok(e[3], ctx, subs) and _const_ok(e[4], ctx, subs)
+        if e[1] in ("Div", "Pow"):
+            d = e[4] if e[1] == "Div" else e[3]
+            acc = set()
+            try:
+                _used_names(d, subs, acc)
+            except (KeyError, AssertionError):
+                return False
+            if not acc and not ((d[0] == "num" and d[1] > 0) or (d[0] == "ctx" and ieval(d[1], ctx) > 0)):
+                return False
+        return ok
+    if k in ("neg", "paren"):
+        return _const_ok(e[1], ctx, subs)
+    if k == "call":
+        return all(_const_ok(a, ctx, subs) for a in e[2])
+    if k == "pseudo":
+        return _const_ok(e[2], ctx, subs)
+    if k == "subs":
+        return e[1] in subs and _const_ok(subs[e[1]], ctx, subs)
+    return True
+
+
+def valid_model(model) -> bool:
+    """the structured model is a well-formed source (independent reading): names declared once, every name used is
+    declared, one equation per variable, log names loggable, consistent !all-but"""
+    try:
+        ref = reference_model(model)
+        items = py_resolve(model["nodes"], model["context"])
+    except (KeyError, AssertionError, TypeError):
+        return False
+    names = [close(it[2]) for it in items if it[0] == "qty"]
+    if len(set(names)) != len(names) or any(n.startswith(("ant_", "std_")) for n in names):
+        return False
+    flags = [bool(it[2]) for it in items if it[0] == "kw" and it[1] == "log"]
+    if len(set(flags)) > 1:
+        return False
+    kinds = {n: v[0] for n, v in ref["quantities"].items()}
+    ntv = sum(1 for v in kinds.values() if v == "QTransitionVariable")
+    nmv = sum(1 for v in kinds.values() if v == "QMeasurementVariable")
+    if ntv != sum(1 for e in ref["equations"] if e[0] == "T") or nmv != sum(1 for e in ref["equations"] if e[0] == "M"):
+        return False
+    if not ref["equations"]:
+        return False
+    loggable = {n for n, v in kinds.items() if v in ("QTransitionVariable", "QMeasurementVariable", "QExogenousVariable")}
+    block, tags = None, {}
+    for it in items:
+        if it[0] == "qty" and len(it) > 3 and it[3]:
+            tags.setdefault(it[3], []).append(close(it[2]))
+    for it in items:
+        if it[0] == "kw":
+            block = it[1]
+        elif it[0] == "log" and (block != "log" or close(it[1]) not in loggable):
+            return False
+        elif it[0] == "loglist" and (block != "log" or not tags.get(it[1]) or not set(tags[it[1]]) <= loggable):
+            return False
+    used = set()
+    try:
+        for _k, _d, dy, st in ref["equations"]:
+            for sd in (dy, st):
+                if sd is not None:
+                    for e in [sd["lhs"], sd["rhs"]] + [t for _, t in sd["tails"]]:
+                        _used_names(e, ref["subs"], used)
+                        if not _const_ok(e, model["context"], ref["subs"]):
+                            return False
+    except (KeyError, AssertionError):
+        return False
+    return used <= set(names)
+
+
+def session_variants(model, r, feats):
+    """variants of a model that keep (most of) its text: [(what, model)]"""
+    out = []
+    nodes, ctx = model["nodes"], model["context"]
+    ref = reference_model(model)
+    live = list(ref["quantities"])
+    fresh = lambda stem: next(f"{stem}{i}" for i in range(1000)   # noqa
+                              if not any(n.lower() == f"{stem}{i}".lower() for n in live + list(ctx)))
+
+    def nm(n, k=0):
+        return ("name", lit(n), ("z", k, "curly"))
+
+    def q(n):
+        return ("item", ("qty", [], lit(n)))
+    # V1: the same sections in another order, declarations inside a section reversed / shuffled
+    units = [list(u) for u in _sections(nodes)]
+    for u in units:
+        head = u[0]
+        if head[0] == "item" and head[1][1] == "qty" and len(u) > 2:
+            body = u[1:]
+            r.shuffle(body)
+            u[1:] = body
+    r.shuffle(units)
+    out.append(("reordered", {"context": ctx, "nodes": [n for u in units for n in u]}))
+    # V2: one more variable / parameter / shock declared ahead of all the others
+    v, par = fresh("zw"), fresh("zp")
+    front = [("item", ("kw", "qty", "P", 0)), q(par), ("item", ("kw", "qty", "TV", 0)), q(v)]
+    some = r.choice(live) if live else v
+    rhs = ("bin", "Add", "caret", ("bin", "Mul", "caret", nm(par), nm(v, -1)), nm(some, r.choice([0, -1, 1])))
+    if r.random() < 0.5:
+        sh = fresh("ze")
+        front = [("item", ("kw", "qty", "TS", 0)), q(sh)] + front
+        rhs = ("bin", "Add", "caret", rhs, nm(sh))
+    front += [("item", ("kw", "eqn", "T", 0)),
+              ("item", ("eqn", [], {"lhs": nm(v), "assign": False, "rhs": rhs, "tails": []}, None))]
+    out.append(("extra-names-first", {"context": ctx, "nodes": front + list(nodes)}))
+    # V3: another preparser context (flags flipped, integers and token lists changed), same text
+    c2 = dict(ctx)
+    for k, val in ctx.items():
+        if isinstance(val, bool):
+            if r.random() < 0.6:
+                c2[k] = not val
+        elif isinstance(val, int):
+            if val >= 1 and r.random() < 0.7:
+                c2[k] = val + r.randint(1, 2)
+        elif isinstance(val, list) and r.random() < 0.6:
+            extra = [t for t in TOKENS if t not in val]
+            c2[k] = (val + [r.choice(extra)]) if (extra and r.random() < 0.6) else list(reversed(val))
+    if c2 != ctx:
+        out.append(("other-context", {"context": c2, "nodes": nodes}))
+    # V4: another body for a substitution, the uses $name$ unchanged
+    if ref["subs"]:
+        which = r.choice(sorted(ref["subs"]))
+
+        def fn(n):
+            if n[0] == "item":
+                it = n[1]
+                if it[0] == "subs" and it[1] == which:
+                    return ("item", ("subs", it[1], it[2], ("paren", ("bin", "Mul", "caret", ("num", 2, 0), ("paren", it[3])))))
+                return n
+            if n[0] == "for":
+                return ("for", n[1], n[2], [fn(x) for x in n[3]])
+            return ("if", n[1], [fn(x) for x in n[2]], [fn(x) for x in n[3]] if n[3] is not None else None)
+        out.append(("other-substitution", {"context": ctx, "nodes": [fn(n) for n in nodes]}))
+    # V5: a parameter becomes an exogenous variable and vice versa (other kind => other id), same equations
+    units = [list(u) for u in _sections(nodes)]
+    swapped = False
+    for u in units:
+        head = u[0]
+        if head[0] == "item" and head[1][:2] == ("kw", "qty") and head[1][2] in ("P", "EX") and r.random() < 0.7:
+            u[0] = ("item", ("kw", "qty", "EX" if head[1][2] == "P" else "P", head[1][3]))
+            swapped = True
+    if swapped:
+        out.append(("other-kind", {"context": ctx, "nodes": [n for u in units for n in u]}))
+    good = []
+    for what, m in out:
+        if "shift-bare" in feats:
+            m = _atomise_shift(m)
+        if valid_model(m):
+            good.append((what, m))
+    return good
+
+
+def gen_session(rng, feats, n_random=0):
+    """[(what, model, source)]: base model (n_random random renderings + one stable rendering) and its variants"""
+    import random
+    r = random.Random(rng.getrandbits(64))
+    base = gen_case(r, feats)
+    sess = [("rendering", base, Render(random.Random(r.getrandbits(64)), feats=feats).source(base)) for _ in range(n_random)]
+    base_seed = r.getrandbits(64)
+    sess.append(("base", base, Render(random.Random(base_seed), feats=feats, stable=True).source(base)))
+    variants = session_variants(base, r, feats)
+    r.shuffle(variants)
+    for what, m in variants[:r.choice([2, 3])]:
+        # another context: the source text is identical to the base, character for character
+        seed = base_seed if what == "other-context" else r.getrandbits(64)
+        sess.append((what, m, Render(random.Random(seed), feats=feats, stable=True).source(m)))
+    if r.random() < 0.5:      # and the base once more at the end of the session
+        sess.append(("base-again", base, Render(random.Random(base_seed), feats=feats, stable=True).source(base)))
+    return sess
 
 
 # =====================================================================================
@@ -1399,12 +1621,21 @@ def shard_text(cases) -> str:
     global _INTERN
     _INTERN = Interner()
     lines = []
-    for i, (model, obs) in enumerate(cases):
-        lines.append(f"Definition ctx_{i} : context := {cq_context(model['context'])}.")
-        lines.append(f"Definition src_{i} : source :=\n   {cq_source(model)}.")
-        lines.append(f"Definition obs_{i} : cres := {cq_observed(obs)}.")
-    lines.append("Definition cases : list (cres * cres) := [" + "; ".join(
-        f"(compile ctx_{i} true big_fuel src_{i}, obs_{i})" for i in range(len(cases))) + "].")
+    src_of, obs_of, pairs = {}, {}, []
+    for model, obs in cases:
+        # the renderings of one model share the model literal (and, if the implementation is right, the observation)
+        if id(model) not in src_of:
+            k = len(src_of)
+            src_of[id(model)] = k
+            lines.append(f"Definition ctx_{k} : context := {cq_context(model['context'])}.")
+            lines.append(f"Definition src_{k} : source :=\n   {cq_source(model)}.")
+            lines.append(f"Definition res_{k} : cres := Eval vm_compute in compile ctx_{k} true big_fuel src_{k}.")
+        text = cq_observed(obs)
+        if text not in obs_of:
+            obs_of[text] = len(obs_of)
+            lines.append(f"Definition obs_{obs_of[text]} : cres := {text}.")
+        pairs.append(f"(res_{src_of[id(model)]}, obs_{obs_of[text]})")
+    lines.append("Definition cases : list (cres * cres) := [" + "; ".join(pairs) + "].")
     lines.append("Eval vm_compute in (map (fun p => cres_diff (fst p) (snd p)) cases).")
     defs = _INTERN.definitions()
     _INTERN = None
@@ -1463,7 +1694,7 @@ def model_stats(model, dist):
 def correspondence(ctx) -> CorrResult:
     import random
     rng = ctx.rng
-    n_models = ctx.scale(80, 4000)
+    n_models = ctx.scale(64, 3000)
     n_render = 3
     per = 20
     feats = excluded_features()
@@ -1471,41 +1702,58 @@ def correspondence(ctx) -> CorrResult:
     dist = {"items": {}, "directives": {}, "pseudofunctions": {}, "max_nesting": 0, "steady_variants": 0,
             "equations_with_inline_directives": 0, "substitution_uses": 0, "context_values": 0,
             "implementation_errors": {}, "malformed": {}, "excluded_features": sorted(feats), "equations": 0, "quantities": 0}
-    cases, texts, jobs = [], set(), []
+    cases, texts, sessions = [], set(), []
+    dist["sessions"] = {"count": 0, "sources": 0, "variants": {}}
     for i in range(n_models):
-        model = gen_case(rng, feats, malformed=0.06)
-        model_stats(model, dist)
-        if model.get("malformed"):
-            dist["malformed"][model["malformed"]] = dist["malformed"].get(model["malformed"], 0) + 1
-        for j in range(n_render):
-            jobs.append((model, Render(random.Random(rng.getrandbits(64)), feats=feats).source(model)))
+        if i % 2 == 0:
+            # a session: two random renderings, a stable rendering and variants of one model, compiled one after the other
+            sess = gen_session(rng, feats, n_random=2)
+            dist["sessions"]["count"] += 1
+            dist["sessions"]["sources"] += len(sess)
+            for what, _m, _s in sess:
+                dist["sessions"]["variants"][what] = dist["sessions"]["variants"].get(what, 0) + 1
+            model_stats(sess[0][1], dist)
+            sessions.append(sess)
+        else:
+            model = gen_case(rng, feats, malformed=0.12)
+            model_stats(model, dist)
+            if model.get("malformed"):
+                dist["malformed"][model["malformed"]] = dist["malformed"].get(model["malformed"], 0) + 1
+            sessions.append([("rendering", model, Render(random.Random(rng.getrandbits(64)), feats=feats).source(model))
+                             for _ in range(n_render)])
     import time
     t0 = time.time()
-    observed = run_impl_many(jobs)
-    ctx.log(f"correspondence: {len(jobs)} sources compiled by the implementation in {time.time() - t0:.1f}s")
-    for (model, src), obs in zip(jobs, observed):
-        if "err" in obs:
-            key = obs["err"].split(":")[0]
-            dist["implementation_errors"][key] = dist["implementation_errors"].get(key, 0) + 1
-        else:
-            dist["equations"] += len(obs["dynamic"])
-            dist["quantities"] += len(obs["quantities"])
-        cases.append((model, obs, src))
-        texts.add(src)
+    observed = run_impl_many([[(m, src) for _w, m, src in sess] for sess in sessions])
+    ctx.log(f"correspondence: {sum(len(x) for x in sessions)} sources in {len(sessions)} sessions compiled by the "
+            f"implementation in {time.time() - t0:.1f}s")
+    for sess, obss in zip(sessions, observed):
+        for j, ((what, model, src), obs) in enumerate(zip(sess, obss)):
+            if "err" in obs:
+                key = obs["err"].split(":")[0]
+                dist["implementation_errors"][key] = dist["implementation_errors"].get(key, 0) + 1
+            else:
+                dist["equations"] += len(obs["dynamic"])
+                dist["quantities"] += len(obs["quantities"])
+            before = [{"what": w, "source": s0, "context": m0["context"], "model": m0} for w, m0, s0 in sess[:j]]
+            cases.append((model, obs, src, before, what))
+            texts.add(src)
     res.evaluations = len(cases)
-    res.distinct_nontrivial = len({s for (m, o, s) in cases if "err" not in o and len(o["dynamic"]) >= 1} & texts)
+    res.distinct_nontrivial = len({c[2] for c in cases if "err" not in c[1] and len(c[1]["dynamic"]) >= 1} & texts)
     res.distribution = dist
-    res.rule = ("one structured model (1-8 variables, shocks, parameters, name families declared by !for loops, units under "
+    res.rule = ("sessions: half of the models are compiled as a session in one Python process (two random renderings, a "
+                "stable rendering, then variants sharing the equation text: sections/declarations reordered, extra names "
+                "declared first, another context, another substitution body, parameter<->exogenous), every source compared; "
+                "otherwise: one structured model (1-8 variables, shocks, parameters, name families declared by !for loops, units under "
                 "!if, substitutions, steady variants, log lists with/without !all-but, !for/!if inside equations, context "
                 "values) rendered 3 times with random syntactic alternatives; compile (Coq, vm_compute) must equal the "
                 "quantities (name, kind, description, log status in id order), the dynamic and steady xtrings parsed by "
                 "Python's ast, and the equation descriptions; non-trivial = the implementation built a model with at "
                 "least one equation; distinct = distinct source text")
-    res.samples = [{"source": s, "context": m["context"], "xtrings": o.get("xtrings", o.get("err"))}
-                   for (m, o, s) in cases[:3]]
+    res.samples = [{"source": c[2], "context": c[0]["context"], "xtrings": c[1].get("xtrings", c[1].get("err"))}
+                   for c in cases[:3]]
     shards = [cases[i:i + per] for i in range(0, len(cases), per)]
     t0 = time.time()
-    results = core.run_cases(ctx, [shard_text([(m, o) for (m, o, s) in sh]) for sh in shards])
+    results = core.run_cases(ctx, [shard_text([(c[0], c[1]) for c in sh]) for sh in shards])
     ctx.log(f"correspondence: {len(shards)} Coq shards evaluated in {time.time() - t0:.1f}s")
     res.shards = len(shards)
     what = {1: "quantities", 2: "dynamic equations", 3: "steady equations", 4: "equation descriptions",
@@ -1521,10 +1769,11 @@ def correspondence(ctx) -> CorrResult:
             res.disagreements.append(Disagreement(f"cases shard {k}: unparsable output", None, out[-600:], None))
             continue
         for i in [j for j, d in enumerate(diffs) if d != 0]:
-            m, o, s = sh[i]
+            m, o, s, before, vwhat = sh[i]
             res.disagreements.append(Disagreement(
-                f"compile: {what.get(diffs[i] if i < len(diffs) else 0, '?')}",
-                {"source": s, "context": m["context"], "model": m}, "Coq model result differs",
+                f"compile: {what.get(diffs[i] if i < len(diffs) else 0, '?')}" + (f" ({vwhat}, source {len(before) + 1} of a session)" if before else ""),
+                {"source": s, "context": m["context"], "model": m, "compiled_before_in_the_same_process": before},
+                "Coq model result differs",
                 o.get("err") or {"xtrings": o["xtrings"], "quantities": o["quantities"]}))
     return res
 
@@ -1835,6 +2084,60 @@ def sweep_model():
     return {"context": {}, "nodes": nodes + eqs}, what
 
 
+def check_session(sess, seed, key_prefix="session:"):
+    """compile and check the sources of a session one after the other in this process; a failure names the source
+    and carries the whole sequence compiled so far as its input"""
+    out = []
+    for j, (what, model, src) in enumerate(sess):
+        fs = check_model(model, src, seed + j)
+        if fs:
+            f = fs[0]
+            alone = "" if j == 0 else " (source %d of a session: %s of the model compiled first)" % (j + 1, what)
+            inp = {"session": [{"what": w, "source": s0, "context": m0["context"], "model": m0} for w, m0, s0 in sess[:j + 1]],
+                   "failing": j, "data_seed": seed, "detail": {k: v for k, v in (f.input or {}).items()
+                                                               if k in ("equation", "human", "xtring")}}
+            out.append(Failure((key_prefix if j > 0 else "") + f.key, f.what + alone, inp, f.observed, f.required,
+                               "in ONE Python process: for s in input['session']: "
+                               "irispie.Simultaneous.from_string(s['source'], context=s['context']); check the last one"))
+            break
+    return out
+
+
+def session_probe():
+    """fixed session: the same equations, declarations in another order / one more name declared first"""
+    def nm(n, k=0):
+        return ("name", lit(n), ("z", k, "curly"))
+
+    def q(n):
+        return ("item", ("qty", [], lit(n)))
+
+    def eq(lhs, rhs, steady=None):
+        sd = None if steady is None else {"lhs": lhs, "assign": False, "rhs": steady, "tails": []}
+        return ("item", ("eqn", [], {"lhs": lhs, "assign": False, "rhs": rhs, "tails": []}, sd))
+    B = lambda o, a, b: ("bin", o, "caret", a, b)   # noqa
+    eqs = [eq(nm("x"), B("Add", B("Add", B("Mul", nm("a"), nm("x", -1)), B("Mul", ("paren", B("Sub", ("num", 1, 0), nm("a"))),
+                                                                        B("Pow", nm("y", 1), ("num", 2, 0)))), nm("e_x"))),
+           eq(nm("y"), B("Sub", B("Mul", nm("b"), ("call", "log", [nm("z")])), nm("x", -2)),
+              B("Sub", B("Mul", nm("b"), ("call", "log", [nm("z")])), nm("x"))),
+           eq(nm("z"), B("Add", B("Add", ("pseudo", "diff", nm("x"), None), B("Mul", nm("a"), nm("b"))), nm("e_z")))]
+    kw = lambda k, x: ("item", ("kw", k, x, 0))   # noqa
+    m1 = {"context": {}, "nodes": [kw("qty", "TV"), q("x"), q("y"), q("z"), kw("qty", "TS"), q("e_x"), q("e_z"),
+                                   kw("qty", "P"), q("a"), q("b"), kw("eqn", "T")] + eqs}
+    m2 = {"context": {}, "nodes": [kw("qty", "P"), q("b"), q("a"), kw("qty", "TS"), q("e_z"), q("e_x"),
+                                   kw("qty", "TV"), q("z"), q("y"), q("x"), kw("eqn", "T")] + eqs}
+    m3 = {"context": {}, "nodes": [kw("qty", "TV"), q("w"), q("x"), q("y"), q("z"), kw("qty", "TS"), q("e_x"), q("e_z"),
+                                   kw("qty", "P"), q("a"), q("b"), kw("eqn", "T"),
+                                   eq(nm("w"), B("Add", B("Mul", ("num", 5, 1), nm("w", -1)), nm("x")))] + eqs}
+    import random
+    rd = lambda m: Render(random.Random(3), noisy=False, stable=True).source(m)   # noqa
+    return [("base", m1, rd(m1)), ("reordered", m2, rd(m2)), ("extra-names-first", m3, rd(m3)), ("base-again", m1, rd(m1))]
+
+
+def _session_worker(job):
+    sess, seed = job
+    return check_session(sess, seed), {"sessions": 1, "session_sources": len(sess)}
+
+
 def _falsify_worker(job):
     import random
     i, model, seeds, feats = job
@@ -1891,21 +2194,32 @@ def falsify(ctx, hints):
             f.what = f"{what[eqi][0]}(e{'' if what[eqi][1] is None else ', ' + str(what[eqi][1])}): " + f.what
         fails.append(f)
     feats = excluded_features() | broken_feats
-    # 2. inputs on which model and implementation disagreed
+    import multiprocessing as mp
+    import irispie  # noqa: imported before the fork
+    # 1c. a fixed session (state that leaks from one compilation into the next), in a fresh process
+    with mp.get_context("fork").Pool(1) as pool:
+        fs, _ = pool.apply(_session_worker, ((session_probe(), 99),))
+    info["probes"]["session"] = "ok" if not fs else fs[0].what[:160]
+    fails += fs
+    # 2. inputs on which model and implementation disagreed (with what was compiled before them in the same process)
     for d in hints.get("disagreements", [])[:10]:
         inp = d.get("input") or {}
         if isinstance(inp, dict) and inp.get("model"):
-            fails += check_model(inp["model"], inp["source"], 777)
+            before = [(b["what"], b["model"], b["source"]) for b in inp.get("compiled_before_in_the_same_process") or []]
+            sess = before + [("disagreement", inp["model"], inp["source"])]
+            with mp.get_context("fork").Pool(1) as pool:
+                fs, _ = pool.apply(_session_worker, ((sess, 777),))
+            fails += fs
     # 3. generated models: evaluation against the independent reading; variants give identical models
-    n = ctx.scale(24, 1200)
+    n = ctx.scale(16, 1000)
     jobs = []
     for i in range(n):
         model = gen_case(rng, feats)
         jobs.append((i, model, [rng.getrandbits(64) for _ in range(2)], feats))
-    import multiprocessing as mp
-    import irispie  # noqa: imported before the fork
+    sjobs = [(gen_session(rng, feats), rng.getrandbits(32)) for _ in range(ctx.scale(14, 500))]
+    info["sessions"] = info["session_sources"] = 0
     with mp.get_context("fork").Pool(min(core.NCPU, 16)) as pool:
-        results = pool.map(_falsify_worker, jobs, chunksize=1)
+        results = pool.map(_falsify_worker, jobs, chunksize=1) + pool.map(_session_worker, sjobs, chunksize=1)
     for fs, cnt in results:
         fails += fs
         for k, v in cnt.items():
@@ -1919,6 +2233,12 @@ def falsify(ctx, hints):
 
 def replay(ctx, failure: dict):
     inp = failure.get("input") or {}
+    if "session" in inp:
+        sess = [(x["what"], x["model"], x["source"]) for x in inp["session"]]
+        for f in check_session(sess, inp.get("data_seed", 1)):
+            if f.input["failing"] == inp.get("failing"):
+                return Failure(failure["key"], f.what, f.input, f.observed, f.required, f.repro)
+        return None
     if "model" in inp and "source" in inp:
         for f in check_model(inp["model"], inp["source"], inp.get("data_seed", 1)):
             return Failure(failure["key"], f.what, f.input, f.observed, f.required, f.repro)
